@@ -36,17 +36,32 @@ import (
 
 type spec struct {
 	file, name string
+	upTo       string // "prefix mode": translate the leading assignments up to and including the one to this variable and return it
 }
 
 var table = []spec{
-	{"x/storage/types/file.go", "getRoundedWindow"},
-	{"x/storage/types/file.go", "ProvenLastBlock"},
-	{"x/storage/types/file.go", "ProvenThisBlock"},
-	{"x/storage/types/file.go", "IsYoung"},
-	{"x/storage/keeper/utils.go", "GetStorageCostKbsWithPrice"},
-	{"x/storage/keeper/utils.go", "GetStorageCost"},
-	{"x/rns/keeper/utils.go", "GetCostOfName"},
-	{"x/jklmint/utils/mint.go", "GetMintForBlock"},
+	{"x/storage/types/file.go", "getRoundedWindow", ""},
+	{"x/storage/types/file.go", "ProvenLastBlock", ""},
+	{"x/storage/types/file.go", "ProvenThisBlock", ""},
+	{"x/storage/types/file.go", "IsYoung", ""},
+	{"x/storage/keeper/utils.go", "GetStorageCostKbsWithPrice", ""},
+	{"x/storage/keeper/utils.go", "GetStorageCost", ""},
+	{"x/rns/keeper/utils.go", "GetCostOfName", ""},
+	{"x/jklmint/utils/mint.go", "GetMintForBlock", ""},
+	{"x/jklmint/keeper/mint.go", "mintStaker", "stakerCoinValue"},
+	{"x/jklmint/keeper/mint.go", "mintDevGrants", "devGrantTokenAmount"},
+	{"x/jklmint/keeper/mint.go", "mintStorageProviderStipend", "provTokens"},
+}
+
+// slice mode: the chain of assignments a variable depends on, anywhere in the function body (loops and
+// closures included); everything outside the arithmetic subset becomes an input
+type sliceSpec struct {
+	file, fn, target string
+}
+
+var slices = []sliceSpec{
+	{"x/storage/keeper/rewards.go", "pullTokensFromGauges", "amt64"},
+	{"x/storage/keeper/rewards.go", "rewardAllProviders", "tokensValueOwed"},
 }
 
 type tr struct {
@@ -61,6 +76,10 @@ type tr struct {
 	tmp     int
 	known   map[string]bool // other translated functions (callable)
 	retBool bool
+	structs map[string]bool   // parameters of struct type: `p.Field` is an input
+	lenient bool              // slice mode: expressions outside the subset become inputs
+	vtype   map[string]string // slice mode: Lean type of the variables bound so far
+	bound   map[string]bool
 }
 
 func (t *tr) src(n ast.Node) string {
@@ -141,6 +160,9 @@ func (t *tr) expr(e ast.Expr, pres *[]pre) string {
 		case "true", "false":
 			return x.Name
 		}
+		if t.lenient && !t.bound[x.Name] {
+			return t.input(x.Name, t.typ(x))
+		}
 		return x.Name
 	case *ast.UnaryExpr:
 		if x.Op == token.SUB {
@@ -187,10 +209,13 @@ func (t *tr) expr(e ast.Expr, pres *[]pre) string {
 		if call, ok := x.X.(*ast.CallExpr); ok && strings.HasSuffix(t.src(call.Fun), ".GetParams") {
 			return t.input(t.src(x), "Int")
 		}
+		if id, ok := x.X.(*ast.Ident); ok && t.structs[id.Name] {
+			return t.input(t.src(x), "Int")
+		}
 	case *ast.CallExpr:
 		fun := t.src(x.Fun)
 		switch fun {
-		case "sdk.NewDec", "int64ToDec":
+		case "sdk.NewDec", "int64ToDec", "sdk.NewDecFromInt":
 			return "(Dec.ofInt " + t.expr(x.Args[0], pres) + ")"
 		case "sdk.MustNewDecFromStr":
 			lit, ok := x.Args[0].(*ast.BasicLit)
@@ -216,8 +241,26 @@ func (t *tr) expr(e ast.Expr, pres *[]pre) string {
 			return "(" + id.Name + "__call " + strings.Join(args, " ") + ")"
 		}
 		if sel, ok := x.Fun.(*ast.SelectorExpr); ok {
+			intRecv := t.lenient && t.typ(sel.X) == "Int"
+			known := map[string]bool{"Mul": true, "Add": true, "Sub": true, "QuoInt64": true, "MulInt64": true, "TruncateInt": true, "TruncateInt64": true, "Quo": true, "ToDec": true}
+			if t.lenient && !known[sel.Sel.Name] {
+				return t.input(t.src(e), t.typ(e))
+			}
 			recv := t.expr(sel.X, pres)
 			arg := func(i int) string { return t.expr(x.Args[i], pres) }
+			if intRecv {
+				switch sel.Sel.Name {
+				case "Sub":
+					return "(" + recv + " - " + arg(0) + ")"
+				case "Add":
+					return "(" + recv + " + " + arg(0) + ")"
+				case "Mul":
+					return "(" + recv + " * " + arg(0) + ")"
+				case "ToDec":
+					return "(Dec.ofInt " + recv + ")"
+				}
+				fail("%s: method %s on an integer", t.fn.Name.Name, sel.Sel.Name)
+			}
 			switch sel.Sel.Name {
 			case "Mul":
 				return "(Dec.mul " + recv + " " + arg(0) + ")"
@@ -241,8 +284,53 @@ func (t *tr) expr(e ast.Expr, pres *[]pre) string {
 			// method of the receiver translated elsewhere (f.ProvenLastBlock etc. are not called here)
 		}
 	}
+	if t.lenient {
+		return t.input(t.src(e), t.typ(e))
+	}
 	fail("%s: unsupported expression %s", t.fn.Name.Name, t.src(e))
 	return ""
+}
+
+// typ infers the Lean type of a Go expression syntactically (slice mode).
+func (t *tr) typ(e ast.Expr) string {
+	switch x := e.(type) {
+	case *ast.ParenExpr:
+		return t.typ(x.X)
+	case *ast.BasicLit:
+		if x.Kind == token.STRING {
+			return "String"
+		}
+		return "Int"
+	case *ast.Ident:
+		if ty, ok := t.vtype[x.Name]; ok {
+			return ty
+		}
+		return "Int"
+	case *ast.BinaryExpr:
+		switch x.Op {
+		case token.LSS, token.LEQ, token.GTR, token.GEQ, token.EQL, token.NEQ, token.LAND, token.LOR:
+			return "Bool"
+		}
+		return "Int"
+	case *ast.CallExpr:
+		fun := t.src(x.Fun)
+		switch fun {
+		case "sdk.NewDec", "sdk.NewDecFromInt", "sdk.MustNewDecFromStr", "int64ToDec":
+			return "Dec"
+		}
+		if sel, ok := x.Fun.(*ast.SelectorExpr); ok {
+			switch sel.Sel.Name {
+			case "Mul", "Add", "Sub", "Quo":
+				return t.typ(sel.X)
+			case "QuoInt64", "MulInt64", "ToDec":
+				return "Dec"
+			case "TruncateInt", "TruncateInt64", "UnixMicro", "AmountOf", "Int64":
+				return "Int"
+			}
+		}
+		return "Int"
+	}
+	return "Int"
 }
 
 func indent(n int) string { return strings.Repeat("  ", n) }
@@ -448,7 +536,7 @@ func main() {
 		if fn == nil {
 			fail("function %s not found in %s", s.name, s.file)
 		}
-		t := &tr{fset: fset, fn: fn, inName: map[string]string{}, inType: map[string]string{}, known: known}
+		t := &tr{fset: fset, fn: fn, inName: map[string]string{}, inType: map[string]string{}, known: known, structs: map[string]bool{}}
 		if fn.Recv != nil && len(fn.Recv.List) == 1 && len(fn.Recv.List[0].Names) == 1 {
 			t.recv = fn.Recv.List[0].Names[0].Name
 		}
@@ -459,6 +547,10 @@ func main() {
 					continue
 				}
 				if ty == "" {
+					if s.upTo != "" { // prefix mode: a struct parameter contributes inputs `p.Field`
+						t.structs[n.Name] = true
+						continue
+					}
 					fail("%s: parameter %s of type %s", s.name, n.Name, t.src(p.Type))
 				}
 				t.params = append(t.params, [2]string{n.Name, ty})
@@ -466,21 +558,44 @@ func main() {
 		}
 		res := fn.Type.Results.List
 		retTy := leanType(t.src(res[0].Type))
-		if retTy == "" {
-			fail("%s: result type %s", s.name, t.src(res[0].Type))
+		bodyList := fn.Body.List
+		if s.upTo != "" {
+			// the leading assignments up to the one to s.upTo, then `return s.upTo`
+			var pre []ast.Stmt
+			found := false
+			for _, st := range fn.Body.List {
+				as, ok := st.(*ast.AssignStmt)
+				if !ok || len(as.Lhs) != 1 {
+					break
+				}
+				pre = append(pre, st)
+				if t.src(as.Lhs[0]) == s.upTo {
+					found = true
+					break
+				}
+			}
+			if !found {
+				fail("%s: no leading assignment to %s", s.name, s.upTo)
+			}
+			bodyList = append(pre, &ast.ReturnStmt{Results: []ast.Expr{ast.NewIdent(s.upTo)}})
+			retTy = "Int"
+		} else {
+			if retTy == "" {
+				fail("%s: result type %s", s.name, t.src(res[0].Type))
+			}
+			if len(res) == 2 {
+				t.option = true
+			}
 		}
 		t.retBool = retTy == "Bool"
-		if len(res) == 2 {
-			t.option = true
-		}
 		// first pass to discover Quo (Option) — translate into a scratch buffer
 		var scratch strings.Builder
-		t.stmts(fn.Body.List, nil, 1, &scratch)
+		t.stmts(bodyList, nil, 1, &scratch)
 		opt := t.option
 		// second pass with the final mode
-		t2 := &tr{fset: fset, fn: fn, recv: t.recv, inName: map[string]string{}, inType: map[string]string{}, known: known, params: t.params, option: opt, retBool: t.retBool}
+		t2 := &tr{fset: fset, fn: fn, recv: t.recv, inName: map[string]string{}, inType: map[string]string{}, known: known, params: t.params, option: opt, retBool: t.retBool, structs: t.structs}
 		var body strings.Builder
-		t2.stmts(fn.Body.List, nil, 1, &body)
+		t2.stmts(bodyList, nil, 1, &body)
 		bodyS := body.String()
 		// calls to other translated functions: pass their inputs through (they must be inputs here too)
 		for name := range known {
@@ -522,6 +637,127 @@ func main() {
 		} else {
 			sigs[s.name] = ""
 		}
+	}
+
+	for _, sp := range slices {
+		f := files[sp.file]
+		if f == nil {
+			var err error
+			f, err = parser.ParseFile(fset, filepath.Join(root, sp.file), nil, 0)
+			if err != nil {
+				fail("%v", err)
+			}
+			files[sp.file] = f
+		}
+		var fn *ast.FuncDecl
+		for _, d := range f.Decls {
+			if fd, ok := d.(*ast.FuncDecl); ok && fd.Name.Name == sp.fn {
+				fn = fd
+			}
+		}
+		if fn == nil {
+			fail("function %s not found in %s", sp.fn, sp.file)
+		}
+		// every single-variable assignment of the body, by name (a variable assigned twice is ambiguous)
+		defs := map[string]ast.Expr{}
+		count := map[string]int{}
+		ast.Inspect(fn.Body, func(n ast.Node) bool {
+			if as, ok := n.(*ast.AssignStmt); ok && len(as.Lhs) == 1 && len(as.Rhs) == 1 {
+				if id, ok := as.Lhs[0].(*ast.Ident); ok && id.Name != "_" {
+					defs[id.Name] = as.Rhs[0]
+					count[id.Name]++
+				}
+			}
+			return true
+		})
+		if defs[sp.target] == nil {
+			fail("%s: no assignment to %s", sp.fn, sp.target)
+		}
+		t := &tr{fset: fset, fn: fn, inName: map[string]string{}, inType: map[string]string{}, known: map[string]bool{}, structs: map[string]bool{},
+			lenient: true, vtype: map[string]string{}, bound: map[string]bool{}}
+		var lets []string
+		var order []string
+		visiting := map[string]bool{}
+		var need func(name string)
+		need = func(name string) {
+			if t.bound[name] || visiting[name] {
+				return
+			}
+			rhs, ok := defs[name]
+			if !ok || name == "err" {
+				return
+			}
+			if count[name] > 1 {
+				fail("%s: %s is assigned %d times", sp.fn, name, count[name])
+			}
+			visiting[name] = true
+			ast.Inspect(rhs, func(n ast.Node) bool {
+				if id, ok := n.(*ast.Ident); ok {
+					if _, isDef := defs[id.Name]; isDef && id.Name != name {
+						// only variables used as values (not the `x` of `x.Method`… which is a value too) — all of them
+						need(id.Name)
+					}
+				}
+				return true
+			})
+			var pres []pre
+			code := t.expr(rhs, &pres)
+			for _, p := range pres {
+				lets = append(lets, fmt.Sprintf("  let %s ← %s", p.name, p.expr))
+			}
+			t.vtype[name] = t.typ(rhs)
+			t.bound[name] = true
+			lets = append(lets, fmt.Sprintf("  let %s := %s", name, code))
+			order = append(order, name)
+		}
+		need(sp.target)
+		// keep only the bindings the target transitively uses (a variable that only occurs inside an
+		// expression that became an input is not needed)
+		isWord := func(code, w string) bool {
+			for i := 0; i+len(w) <= len(code); i++ {
+				if code[i:i+len(w)] == w {
+					before := i == 0 || !(code[i-1] == '_' || code[i-1] >= '0' && code[i-1] <= '9' || code[i-1] >= 'a' && code[i-1] <= 'z' || code[i-1] >= 'A' && code[i-1] <= 'Z')
+					j := i + len(w)
+					after := j == len(code) || !(code[j] == '_' || code[j] >= '0' && code[j] <= '9' || code[j] >= 'a' && code[j] <= 'z' || code[j] >= 'A' && code[j] <= 'Z')
+					if before && after {
+						return true
+					}
+				}
+			}
+			return false
+		}
+		keep := make([]bool, len(lets))
+		live := " " + sp.target + " "
+		for i := len(lets) - 1; i >= 0; i-- {
+			parts := strings.SplitN(strings.TrimPrefix(lets[i], "  let "), " ", 3) // name, :=/←, code
+			if isWord(live, parts[0]) {
+				keep[i] = true
+				live += " " + parts[2] + " "
+			}
+		}
+		var kept []string
+		for i, l := range lets {
+			if keep[i] {
+				kept = append(kept, l)
+			}
+		}
+		lets = kept
+		var ps, inQ []string
+		for _, in := range t.inputs {
+			if !isWord(live, t.inName[in]) {
+				continue
+			}
+			ps = append(ps, fmt.Sprintf("(%s : %s)", t.inName[in], t.inType[in]))
+			inQ = append(inQ, fmt.Sprintf("%q", in))
+		}
+		retTy := t.vtype[sp.target]
+		kw, retv := "", sp.target
+		if t.option {
+			retTy, kw, retv = "Option "+retTy, " do", "some "+sp.target
+		}
+		name := sp.fn + "_" + sp.target
+		fmt.Fprintf(&out, "/-- the value of `%s` in `%s` (%s), as a function of what it is computed from -/\ndef %s_inputs : List String := [%s]\n", sp.target, sp.fn, sp.file, name, strings.Join(inQ, ", "))
+		fmt.Fprintf(&out, "def %s %s : %s :=%s\n%s\n  %s\n\n", name, strings.Join(ps, " "), retTy, kw, strings.Join(lets, "\n"), retv)
 	}
 	out.WriteString("end Canine.Generated.Pure\n")
 	fmt.Print(out.String())
